@@ -71,14 +71,16 @@ def build(targets, log):
     fcntl.flock(lock, fcntl.LOCK_EX)
     try:
         ok, msg = common.regenerate_all()
-        if not ok:
-            return False, msg
         if common.write_coqproject() or not os.path.exists(os.path.join(common.COQ, "Makefile")):
             subprocess.run(["coq_makefile", "-f", "_CoqProject", "-o", "Makefile"], cwd=common.COQ,
                            capture_output=True, text=True)
-        p = subprocess.run(["timeout", "1500", "make", "-j", str(common.NCPU)] + targets, cwd=common.COQ,
+        # -k: a broken proof file must not prevent the verdict files (the tie) from being built, so that a
+        # concrete failing input can still be searched for
+        p = subprocess.run(["timeout", "1500", "make", "-k", "-j", str(common.NCPU)] + targets, cwd=common.COQ,
                            capture_output=True, text=True)
         log.append(p.stdout[-2000:] + p.stderr[-4000:])
+        if not ok:
+            return False, msg + " (the previously generated model is kept for the search for a failing input)"
         if p.returncode != 0:
             m = re.search(r'File "\./([^"]+)", line (\d+)', p.stderr)
             where = f"{m.group(1)}:{m.group(2)}" if m else "?"
